@@ -21,6 +21,54 @@ static int verif_strcmp3(const char *a, const char *b) {
 #define strcmp(a, b) verif_strcmp3(a, b)
 #include "parse.c"
 #undef strcmp
+#ifdef NATIVE
+// native replay links only this file: everything else parse.c imports is never called by the two
+// kernels under test; weak references let the replay link without the other translation units
+#pragma weak add_type
+#pragma weak align_to
+#pragma weak array_of
+#pragma weak consume
+#pragma weak copy_type
+#pragma weak enum_type
+#pragma weak equal
+#pragma weak format
+#pragma weak func_type
+#pragma weak hashmap_get2
+#pragma weak hashmap_put2
+#pragma weak is_compatible
+#pragma weak is_flonum
+#pragma weak is_integer
+#pragma weak is_numeric
+#pragma weak pointer_to
+#pragma weak skip
+#pragma weak strarray_push
+#pragma weak struct_in_memory
+#pragma weak struct_type
+#pragma weak ty_bool
+#pragma weak ty_char
+#pragma weak ty_double
+#pragma weak ty_float
+#pragma weak ty_int
+#pragma weak ty_ldouble
+#pragma weak ty_long
+#pragma weak ty_short
+#pragma weak ty_uchar
+#pragma weak ty_uint
+#pragma weak ty_ulong
+#pragma weak ty_ushort
+#pragma weak ty_void
+#pragma weak vla_of
+#pragma weak new_file
+#pragma weak tokenize
+#pragma weak tokenize_file
+#pragma weak convert_pp_tokens
+#pragma weak warn_tok
+#pragma weak tokenize_string_literal
+#pragma weak hashmap_delete
+#pragma weak hashmap_delete2
+#pragma weak encode_utf8
+#pragma weak decode_utf8
+#endif
 
 #define NF 3
 struct IN_t {
@@ -44,11 +92,13 @@ void hashmap_put(HashMap *map, char *key, void *val) {}
 // tree of the DFS (NF^NF calls; > 500k steps already for 3 nodes).  The graph is therefore selected
 // by the symbolic index IN.graph among ALL graphs on NF=3 nodes (9 edge bits incl. self loops,
 // 3 root bits, 1 bit choosing what a missing edge slot refers to: a variable or an undeclared
-// name) = 8192 cases; each harness function covers a batch of GB cases and explores them case by
+// name) = 8192 cases; each harness function covers a batch of GB (=128) cases and explores them case by
 // case with concrete data inside the case.
 #undef NF
 #define NF 3
-#define GB 512
+#ifndef GB
+#define GB 128
+#endif
 static char fname[4][3] = {"f0", "f1", "f2", "f3"};
 static char sp_gv[] = "gv", sp_uu[] = "uu";
 static Obj fn[NF], gv;
@@ -102,20 +152,37 @@ static void run_graph(int g) {
   }
   VASSERT(!gv.is_live, "a variable is never marked live");
 }
-static void run_gbatch(int b) {
+// quick tier: graphs without self loops: 6 off-diagonal edge bits + 3 root bits + 1 alt bit = 1024 cases
+static int expand_quick(int q) {
+  int g = 0, bit = 0;
+  for (int i = 0; i < NF; i++) for (int j = 0; j < NF; j++)
+    if (i != j) { if ((q >> bit) & 1) g |= 1 << (3 * i + j); bit++; }
+  g |= ((q >> 6) & 7) << 9;
+  g |= ((q >> 9) & 1) << 12;
+  return g;
+}
+static void run_gbatch(int b, bool quick) {
   HAVOC_IN();
   int k = IN.graph;
   __CPROVER_assume(k >= b * GB && k < (b + 1) * GB);
   for (int i = b * GB; i < (b + 1) * GB; i++) {
     if (k != i) continue;
-    run_graph(i);
+    run_graph(quick ? expand_quick(i) : i);
     VCOVER();
     return;
   }
 }
-#define GBATCH(b) void h_mark_live_##b(void) { run_gbatch(b); }
+#define GBATCH(b) void h_mark_live_##b(void) { run_gbatch(b, false); }
+#define QBATCH(b) void h_mark_live_q##b(void) { run_gbatch(b, true); }
+QBATCH(0) QBATCH(1) QBATCH(2) QBATCH(3) QBATCH(4) QBATCH(5) QBATCH(6) QBATCH(7)
 GBATCH(0) GBATCH(1) GBATCH(2) GBATCH(3) GBATCH(4) GBATCH(5) GBATCH(6) GBATCH(7)
 GBATCH(8) GBATCH(9) GBATCH(10) GBATCH(11) GBATCH(12) GBATCH(13) GBATCH(14) GBATCH(15)
+GBATCH(16) GBATCH(17) GBATCH(18) GBATCH(19) GBATCH(20) GBATCH(21) GBATCH(22) GBATCH(23)
+GBATCH(24) GBATCH(25) GBATCH(26) GBATCH(27) GBATCH(28) GBATCH(29) GBATCH(30) GBATCH(31)
+GBATCH(32) GBATCH(33) GBATCH(34) GBATCH(35) GBATCH(36) GBATCH(37) GBATCH(38) GBATCH(39)
+GBATCH(40) GBATCH(41) GBATCH(42) GBATCH(43) GBATCH(44) GBATCH(45) GBATCH(46) GBATCH(47)
+GBATCH(48) GBATCH(49) GBATCH(50) GBATCH(51) GBATCH(52) GBATCH(53) GBATCH(54) GBATCH(55)
+GBATCH(56) GBATCH(57) GBATCH(58) GBATCH(59) GBATCH(60) GBATCH(61) GBATCH(62) GBATCH(63)
 
 // ================================================================ scan_globals
 enum { K_EXTERN, K_TENTATIVE, K_DEFINITION };   // extern int x; | int x; | int x = 1;
